@@ -194,6 +194,50 @@ def run_refusal_oracle(outcome, tier, seed):
     outcome.add_sample({"kind": "refuse", "example": "null planted at every path of a generated table, sources json/yaml/msgpack"})
 
 
+def run_cli_oracle(outcome):
+    """The same clauses at the command line, where one translator serves all inputs: a second input or document is refused
+    (status 1) and standard output holds nothing but the first document."""
+    import cli
+    ok, out = common.build_xt()
+    if not ok:
+        raise RuntimeError("xt binary does not build: " + out[-400:])
+    fx = cli.Fixture("C08")
+    try:
+        first = {"a.json": b"a = 1\n", "c.toml": b'c = "x"\n\n[t]\nu = 1\n', "b.yaml": b"b = [\n    1,\n    2,\n]\n", "d.msgpack": b"d = [\n    1,\n    2,\n]\n",
+                 "empty.json": None}
+        cases = [(["a.json", "c.toml"], None), (["c.toml", "a.json"], None), (["a.json", "a.json"], None), (["a.json", "-"], b'{"z":1}'),
+                 (["-", "a.json"], b'{"z":1}'), (["two.json"], None), (["b.yaml"], None), (["d.msgpack"], None), (["a.json", "nullkey.yaml"], None),
+                 (["a.json", "missing.json"], None), (["a.json"], None), (["c.toml"], None)]
+        for names, stdin in cases:
+            st, o, e = cli.run_case(common.XT_DEBUG, fx.dir, cli.Case(["-t", "toml"] + names, stdin, "pipe"))
+            info = {"argv": ["-t", "toml"] + names, "observed": {"status": st, "stdout": o[:300].decode("utf-8", "replace"), "stderr": e[:200].decode("utf-8", "replace")}}
+            single = len(names) == 1 and names[0] in ("a.json", "c.toml")
+            if single:
+                if st != ("exit", 0) or o != first[names[0]]:
+                    outcome.oracle_failures.append(dict(info, what="a single table-rooted input is not translated to its one TOML document"))
+                continue
+            if st != ("exit", 1):
+                outcome.oracle_failures.append(dict(info, what="a second document or second input to a TOML output is not refused (exit status %s)" % (st,)))
+                continue
+            try:
+                docs = gen.read_documents(o, "toml") if o else []
+            except ValueError:
+                outcome.oracle_failures.append(dict(info, what="what was written before the refusal is not one valid TOML document"))
+                continue
+            want = first.get(names[0]) if names[0] != "-" else b"z = 1\n"
+            if names[0] in ("two.json",):
+                want = b"a = 1\n"
+            if names[0] in ("b.yaml", "d.msgpack"):
+                want = first[names[0]]
+            if want is not None and o not in (want, b""):
+                outcome.oracle_failures.append(dict(info, what="standard output holds something other than nothing or the first document"))
+        outcome.evaluations += len(cases)
+        outcome.distinct_nontrivial += len(cases)
+        outcome.extra["cli_refusals"] = {"invocations": len(cases)}
+    finally:
+        fx.close()
+
+
 def run(outcome, tier, seed):
     outcome.rule = ("history correspondence with target TOML (non-trivial = two or more calls or documents); refusal oracle: each "
                     "request (unrepresentable value at a tree position, non-table root, accepted document read back with tomllib, "
@@ -201,6 +245,7 @@ def run(outcome, tier, seed):
     rng = random.Random(seed + 8)
     history.correspondence(outcome, tier, seed, ["toml"], rng, 1200 if tier == "thorough" else 200)
     run_refusal_oracle(outcome, tier, seed)
+    run_cli_oracle(outcome)
 
 
 def replay(outcome, path):
